@@ -1,4 +1,87 @@
-(* placeholder until the proofs are in *)
-From LC Require Import Filters.
-Theorem C06_placeholder : True. Proof. exact I. Qed.
-Print Assumptions C06_placeholder.
+(* C06 — Block filters are acted on only if authentic and attributed to the right block.
+   Model: Model/Filters.v (BlockFiltersProcess::execute, check_filters_data).
+
+   - [C06_progress_only_over_verified_filters]: whenever a BlockFilters message changes anything beyond a ban
+     (filter progress, a pending record, the scripts' numbers), it came from a proven peer, starts right after the
+     current progress, has as many hashes as filters, and the first [limit] filters, chained with
+     calc_filter_hash from the parent hash, equal the expected hashes; progress advances by exactly
+     [limit] = min(filters, expected hashes), never over an unverified filter.
+   - [C06_expected_hashes_latest] / [C06_expected_hashes_cached]: parent and expected hashes are the suffix,
+     positioned at [start], of (finalized check point :: hashes the required number of proven peers agree on)
+     or of (stored check point :: cached hashes of that interval).
+   - [C06_matched_blocks_attribution]: the recorded block hashes are exactly the hashes the message carries at
+     the positions of verified filters that match a script registered below the end of the batch; the scripts'
+     numbers are only raised when none matched and nothing is pending in memory.
+   - [C06_progress_monotone].
+   What the model cannot show, because the code does not do it: that the block hash carried next to a matching
+   filter is the hash of the proven-chain block at that height (known finding
+   C06-substituted-block-hash-skips-activity, exhibited by the correspondence op). *)
+From Coq Require Import NArith List.
+From LC Require Import Filters FiltersProofs.
+Import ListNotations.
+Open Scope N_scope.
+
+Theorem C06_progress_only_over_verified_filters :
+  forall w m o,
+    execute w m = Ok o ->
+    (o = nothing w) \/
+    (o = mkFO 0 (fw_min w) (if fw_db_pending w then None else Some (fw_min w)) None false None /\ fw_min w + 1 <> m_start m) \/
+    (exists code, o = banned w code) \/
+    (exists tip parent expected,
+       fw_scripts w <> [] /\ fw_peer w = Some (Some tip) /\
+       fw_min w + 1 = m_start m /\ length (m_filters m) = length (m_hashes m) /\ m_filters m <> [] /\
+       expected_hashes w (m_start m) = Ok (Some (parent, expected)) /\
+       let limit := Nat.min (length (m_filters m)) (length expected) in
+       firstn limit (chained (fw_htable w) parent (m_filters m)) = firstn limit expected /\
+       let active := active_scripts w (m_start m + N.of_nat limit) in
+       let matched := matched_hashes w active limit (m_filters m) (m_hashes m) in
+       fo_ban o = 0 /\ fo_min o = fw_min w + N.of_nat limit /\
+       fo_record o = match matched with [] => None | _ => Some (m_start m, N.of_nat limit, map (fun h => (h, h =? tip)) matched) end /\
+       fo_bump o = match matched with [] => if fw_mem_empty w then Some (fw_min w + N.of_nat limit) else None | _ => None end).
+Proof. exact execute_cases. Qed.
+Print Assumptions C06_progress_only_over_verified_filters.
+
+Theorem C06_expected_hashes_latest :
+  forall w start parent expected,
+    fw_interval w * fw_fin_index w < start ->
+    expected_hashes w start = Ok (Some (parent, expected)) ->
+    parent :: expected = skipn (N.to_nat (start - fw_interval w * fw_fin_index w - 1)) (fw_fin_hash w :: fw_latest w).
+Proof. exact expected_hashes_latest. Qed.
+Print Assumptions C06_expected_hashes_latest.
+
+Theorem C06_expected_hashes_cached :
+  forall w start parent expected,
+    start <= fw_interval w * fw_fin_index w ->
+    expected_hashes w start = Ok (Some (parent, expected)) ->
+    fw_interval w * fw_cached_index w < start /\ start <= fw_interval w * (fw_cached_index w + 1) /\
+    exists cp, (start = fw_interval w * fw_cached_index w + 1 -> fw_cached_cp w = Some cp) /\
+      parent :: expected = skipn (N.to_nat (start - fw_interval w * fw_cached_index w - 1)) (cp :: fw_cached w).
+Proof. exact expected_hashes_cached. Qed.
+Print Assumptions C06_expected_hashes_cached.
+
+Theorem C06_matched_blocks_attribution :
+  forall w active limit filters hashes h,
+    In h (matched_hashes w active limit filters hashes) <->
+    exists i f, (i < limit)%nat /\ nth_error filters i = Some f /\ nth_error hashes i = Some h /\ filter_matches w active f = true.
+Proof. exact matched_hashes_spec. Qed.
+Print Assumptions C06_matched_blocks_attribution.
+
+Theorem C06_chain_check_exact :
+  forall t filters expected parent,
+    (exists p', chain_check t parent filters expected = Some p') <->
+    firstn (Nat.min (length filters) (length expected)) (chained t parent filters) =
+    firstn (Nat.min (length filters) (length expected)) expected.
+Proof. intros. split; [intros [p' H]; eapply chain_check_spec; eauto | apply chain_check_complete]. Qed.
+Print Assumptions C06_chain_check_exact.
+
+Theorem C06_progress_monotone : forall w m o, execute w m = Ok o -> fw_min w <= fo_min o.
+Proof. exact execute_min_monotone. Qed.
+Print Assumptions C06_progress_monotone.
+
+(* the accepting case is inhabited: an authentic two-filter batch after the finalized check point, second filter matching *)
+Example C06_accepts_authentic_batch :
+  execute (mkFW [(2, 0)] (Some (Some 900)) 0 false true 10 0 100 0 [] (Some 100) [101; 102; 103]
+                [(100, 7, 101); (101, 8, 102)] [(8, [2])])
+          (mkMsg 1 [7; 8] [501; 502])
+  = Ok (mkFO 0 2 None (Some (1, 2, [(502, false)])) true (Some 3)).
+Proof. vm_compute. reflexivity. Qed.
